@@ -32,9 +32,11 @@ from .sched import CaseTimeout, HarnessError, Violation
 class World(object):
     """Per-case state: mode, scheduler, persistent proc workers, counters."""
 
-    def __init__(self, sched, mode="proc", p_switch=8, max_workers=4):
+    def __init__(self, sched, mode="proc", p_switch=8, max_workers=4, default_n_jobs=None):
         self.sched = sched
         self.mode = mode
+        # joblib.parallel_config(n_jobs=...) of the caller: what Parallel() uses when its own n_jobs is None
+        self.default_n_jobs = default_n_jobs
         self.p_switch = int(p_switch)
         self.max_workers = max_workers
         self.workers = []           # proc-mode children (persistent across calls)
@@ -100,7 +102,7 @@ class SimParallel(object):
     def _n_eff(self, n_tasks):
         n = self.n_jobs
         if n is None:
-            n = 1
+            n = (WORLD[0].default_n_jobs if WORLD[0] is not None else None) or 1
         if n == 0:
             raise ValueError("n_jobs == 0 in Parallel has no meaning")
         if n < 0:
